@@ -32,6 +32,8 @@ def same_value(a, b, d=0):
     if isinstance(a, (VTuple, VClosure)):
         return len(a.fields) == len(b.fields) and all(same_value(x, y, d + 1) for x, y in zip(a.fields, b.fields))
     if isinstance(a, VArray):
+        if (a.init is None) != (b.init is None) or (a.init is not None and a.init != b.init):
+            return False
         if a.elems is None or b.elems is None:
             return a.elems is None and b.elems is None and a.key == b.key
         return len(a.elems) == len(b.elems) and all(same_value(x, y, d + 1) for x, y in zip(a.elems, b.elems))
@@ -248,6 +250,11 @@ def widen(I, st, old, cid, disabled, checks, ty=None):
             for cc, fn in sub:
                 checks.append((cc, lambda sb, vb, fn=fn, i=i: isinstance(vb, (VTuple, VClosure)) and i < len(vb.fields) and fn(sb, vb.fields[i])))
         return VTuple(fs) if isinstance(old, VTuple) else VClosure(old.path, fs)
+    if isinstance(old, VArray) and old.init is not None:
+        nv = widen(I, st, VInt(old.init), cid + ("init",), disabled, checks2 := [], "usize")
+        for c, fn in checks2:
+            checks.append((c, lambda sb, vb, fn=fn: isinstance(vb, VArray) and vb.init is not None and fn(sb, VInt(vb.init))))
+        return VArray(None, old.n, ("w", fresh_id()), old.ety, init=nv.lin)
     if isinstance(old, VArray):
         if old.elems is not None and len(old.elems) <= 64:
             c = cid + ("elems",)
@@ -388,6 +395,126 @@ def modified_places(I, st, fr, blocks):
     return res
 
 
+def measures_of(v, prefix=()):
+    """yield (name, kind, Lin) progress measures inside value v.  kind 'dec' must strictly decrease and is
+    bounded below by 0; kind ('inc', bound) must strictly increase and is bounded above by bound"""
+    if isinstance(v, VRegion):
+        yield prefix + ("len",), "dec", v.len
+    elif isinstance(v, VIter):
+        if v.kind == "slice":
+            yield prefix + ("iter.len",), "dec", v.d["r"].len
+        elif v.kind == "count":
+            yield prefix + ("iter.n",), "dec", v.d["n"]
+        elif v.kind == "stepby":
+            yield prefix + ("iter.remaining",), "dec", v.d["end"] - v.d["start"]
+        elif v.kind == "take" and isinstance(v.d.get("n"), Lin):
+            yield prefix + ("take.n",), "dec", v.d["n"]
+            for m in measures_of(v.d["inner"], prefix + ("inner",)):
+                yield m
+        elif v.kind == "enumerate":
+            for m in measures_of(v.d["inner"], prefix + ("inner",)):
+                yield m
+    elif isinstance(v, VVec):
+        if v.cap.is_const():
+            yield prefix + ("vec.free",), "dec", v.cap - v.len
+    elif isinstance(v, VAdt) and v.fields is not None:
+        if v.path.endswith("::Range") and len(v.fields) == 2 and isinstance(v.fields[0], VInt) and isinstance(v.fields[1], VInt):
+            yield prefix + ("range.remaining",), "dec", v.fields[1].lin - v.fields[0].lin
+        for i, f in enumerate(v.fields):
+            for m in measures_of(f, prefix + (i,)):
+                yield m
+    elif isinstance(v, (VTuple, VClosure)):
+        for i, f in enumerate(v.fields):
+            for m in measures_of(f, prefix + (i,)):
+                yield m
+    elif isinstance(v, VBool):
+        yield prefix + ("flag",), "flag", v
+
+
+def lookup_measure(v, name):
+    for n, k, l in measures_of(v):
+        if n == name:
+            return k, l
+    return None
+
+
+def termination_measure(I, head_vals, backs, places):
+    """a measure that strictly decreases on every back edge (or None).  Bool flags: the sum of a set of
+    flags that are never raised inside the loop and of which at least one is cleared on every back edge."""
+    if not backs:
+        return "no back edge reachable"
+    cands = []
+    for p in places:
+        hv = head_vals.get(p)
+        if hv is None:
+            continue
+        for name, kind, l in measures_of(hv):
+            cands.append((p, name, kind, l))
+    # single numeric measure
+    for p, name, kind, l in cands:
+        if kind != "dec":
+            continue
+        ok = True
+        for sb in backs:
+            vb = I.load(sb, ("place",) + p)
+            m = lookup_measure(vb, name)
+            if m is None or m[0] != "dec":
+                ok = False
+                break
+            # strictly smaller and the head value non-negative is implied by type (lengths / counts)
+            if not sb.entails(l - m[1] - 1):
+                ok = False
+                break
+        if ok:
+            return "strictly decreasing %s of place _%s%s" % (".".join(str(x) for x in name), p[1],
+                                                              "".join("." + str(x[1]) for x in p[2] if x[0] == "f"))
+    # flag set: no flag is raised (back => head) and on every back edge one flag that was set is cleared
+    flags = [(p, name, l) for p, name, kind, l in cands if kind == "flag"]
+    if flags:
+        mono = []
+        for p, name, hv in flags:
+            ok = True
+            for sb in backs:
+                vb = I.load(sb, ("place",) + p)
+                m = lookup_measure(vb, name)
+                if m is None or m[0] != "flag":
+                    ok = False
+                    break
+                sub = sb.fork_facts()
+                try:
+                    sub.assume(m[1].f)
+                    ats = set()
+                    I.formula_atoms(m[1].f, ats)
+                    if ats and not sub.feasible(ats):
+                        continue
+                except Infeasible:
+                    continue
+                if not sub.holds(hv.f):
+                    ok = False
+                    break
+            if ok:
+                mono.append((p, name, hv))
+        if mono:
+            allclear = True
+            for sb in backs:
+                cleared = False
+                for p, name, hv in mono:
+                    vb = I.load(sb, ("place",) + p)
+                    m = lookup_measure(vb, name)
+                    if m is None:
+                        continue
+                    # head flag was set on this path and is now clear
+                    if sb.holds(hv.f) and sb.holds(f_not(m[1].f)):
+                        cleared = True
+                        break
+                if not cleared:
+                    allclear = False
+                    break
+            if allclear:
+                return "monotone flag set: every back edge clears one of %d flags that are never raised" % len(mono)
+    return None
+
+
 def analyze_loop(I, st, fr, info):
     H = fr.block
     L = info["loops"][H]
@@ -411,6 +538,34 @@ def analyze_loop(I, st, fr, info):
                 nv = widen(I, head, entry_vals[p], (p,), disabled, ch, place_type(I, head, p))
                 I.store(head, ("place",) + p, nv)
                 checks[p] = ch
+        # relational candidates over pairs (vector being filled, iterator being drained):
+        #   len(vec) + remaining(iter) does not grow
+        pair_checks = []
+        vecs = [(p, entry_vals[p]) for p in places if p in widened and isinstance(entry_vals[p], VVec)]
+        its = [(p, entry_vals[p]) for p in places if p in widened and isinstance(entry_vals[p], VIter)
+               and entry_vals[p].kind in ("count", "slice")]
+        for pv, v0 in vecs:
+            for pi, i0 in its:
+                cid = ("pair", pv, pi)
+                if cid in disabled:
+                    continue
+                rem0 = i0.d["n"] if i0.kind == "count" else i0.d["r"].len
+                hv = I.load(head, ("place",) + pv)
+                hi_ = I.load(head, ("place",) + pi)
+                if not (isinstance(hv, VVec) and isinstance(hi_, VIter) and hi_.kind == i0.kind):
+                    continue
+                rem = hi_.d["n"] if hi_.kind == "count" else hi_.d["r"].len
+                tot0 = v0.len + rem0
+                head.add_ge0(tot0 - hv.len - rem)
+
+                def pchk(sb, pv=pv, pi=pi, tot0=tot0, kind=i0.kind):
+                    a = I.load(sb, ("place",) + pv)
+                    b = I.load(sb, ("place",) + pi)
+                    if not (isinstance(a, VVec) and isinstance(b, VIter) and b.kind == kind):
+                        return False
+                    r = b.d["n"] if kind == "count" else b.d["r"].len
+                    return sb.entails(tot0 - a.len - r)
+                pair_checks.append((cid, pchk))
         if not head.feasible():
             return []
 
@@ -427,6 +582,7 @@ def analyze_loop(I, st, fr, info):
                     return "exit"
             return None
 
+        head_vals = {p: I.load(head, ("place",) + p) for p in places}
         hf = head.frames[-1]
         succ = I.exec_block(head, hf)
         stopped = I.explore(succ, stop)
@@ -451,10 +607,23 @@ def analyze_loop(I, st, fr, info):
                         if not okk:
                             disabled.add(cid)
                             changed = True
+            for cid, fn in pair_checks:
+                if cid in disabled:
+                    continue
+                try:
+                    okk = fn(sb)
+                except Infeasible:
+                    okk = True
+                if not okk:
+                    disabled.add(cid)
+                    changed = True
         if not changed:
             for s in exits:
                 s.loop_ctx = st.loop_ctx
             I.sink.events.append(("loop", fr.body["path"], H, len(places), len(widened), len(disabled), it + 1))
+            term = termination_measure(I, head_vals, backs, places)
+            I.sink.events.append(("loop_term", fr.body["path"], H, fr.body["blocks"][H]["term"].get("sp"),
+                                  term, len(backs), I.ctx(st)))
             return exits
         # retry: discard records of this attempt
         del sink.obligs[snap[0]:]
